@@ -1261,7 +1261,7 @@ Definition ex_mat : list (list Z) :=
 (* 2 stops (each picks up 1, stop 0 has a time window), 1 vehicle of capacity 1,
    one unit per stop *)
 Definition ex_inp : input :=
-  mkInput [mkIStop [(-1)%Z] 10%Z [(0%Z, 3600%Z)] None 100%Z [];
+  mkInput [] [mkIStop [(-1)%Z] 10%Z [(0%Z, 3600%Z)] None 100%Z [];
            mkIStop [(-1)%Z] 10%Z [] None 100%Z []]
           [mkIVehicle (Some [1%Z]) [0%Z] 0%Z None None None None None [] 0%Z true true]
           [mkIUnit [0] []; mkIUnit [1] []]
@@ -1330,7 +1330,7 @@ Qed.
 (* 2 vehicles, one unit {0,1}; stop 0 on vehicle 0, stop 1 on vehicle 1.
    (Not reachable through exec_move, but it satisfies Inv.) *)
 Definition cx_inp : input :=
-  mkInput [mkIStop [] 0%Z [] None 0%Z []; mkIStop [] 0%Z [] None 0%Z []]
+  mkInput [] [mkIStop [] 0%Z [] None 0%Z []; mkIStop [] 0%Z [] None 0%Z []]
           [dflt_vehicle; dflt_vehicle]
           [mkIUnit [0; 1] []]
           [] [] 0 ex_opts.
